@@ -71,9 +71,12 @@ def _focus_path(draw, older):
 
 
 @st.composite
-def _content(draw, ancestors, depth=0, kind=None):
-    """Plain content of the focus; keys biased towards ancestor key names."""
+def _content(draw, ancestors, depth=0, kind=None, inner_prio=False):
+    """Plain content of the focus; keys biased towards ancestor key names.  inner_prio: priority tags on nodes below
+    the focus (at most one per path) so that the newer side has different priorities at different relative paths."""
     kind = kind or draw(st.sampled_from(['map', 'map', 'seq']))
+    if kind == 'seq' and inner_prio and depth == 0:
+        kind = 'map'
     if kind == 'seq':
         return tdoc.sq([draw(LEAF) if depth or draw(st.booleans()) else draw(_content(ancestors, depth + 1, 'map'))
                         for _ in range(draw(st.integers(0, 3)))], flow=draw(st.booleans()))
@@ -82,10 +85,14 @@ def _content(draw, ancestors, depth=0, kind=None):
     keys = draw(st.lists(st.sampled_from(pool), min_size=n, max_size=n, unique=True))
     items = []
     for k in keys:
+        tag = inner_prio and draw(st.integers(0, 2)) == 0
         if depth < 2 and draw(st.integers(0, 2)) == 0:
-            items.append([k, draw(_content(ancestors + [k], depth + 1))])
+            v = draw(_content(ancestors + [k], depth + 1, None, inner_prio and not tag))
         else:
-            items.append([k, draw(LEAF)])
+            v = draw(LEAF)
+        if tag:
+            v['prio'] = draw(st.sampled_from([1, -1]))
+        items.append([k, v])
     return tdoc.mp(items, flow=draw(st.booleans()))
 
 
@@ -106,12 +113,13 @@ def _case(draw):
     case = {'mode': mode, 'older': older, 'path': path}
     if mode in ('a', 'b'):
         # the focus must be a mapping when it sits at depth 0 (a document root is a mapping)
-        focus = draw(_content(list(path), kind=None if path else 'map'))
+        weak_focus = mode == 'b' and draw(st.integers(0, 2)) == 0
+        focus = draw(_content(list(path), kind=None if path else 'map', inner_prio=(mode == 'b' and not weak_focus)))
         if focus['t'] == 'map':
             focus['del'] = True
             if not focus['items']:
                 focus['items'] = [['a', tdoc.sc(1)]]
-        if mode == 'b' and draw(st.booleans()):
+        if weak_focus:
             focus['prio'] = -1
         focus['mdstyle'] = draw(st.sampled_from(['short', 'braces', 'hex']))
         case['focus'] = focus
@@ -234,24 +242,29 @@ class _Skip(Exception):
 
 
 def _expected_b(older_focus_ast, focus):
-    """Entries of the older subtree at the focus path that survive + focus content."""
-    fprio = focus.get('prio', 0) or 0
+    """Entries of the older subtree at the focus path that survive + focus content.
 
-    def rec(old, new):
-        """old: AST (older node at this path or None); new: AST (newer node at this path or None) -> (value, has_survivor)"""
+    An older entry survives iff its priority is strictly higher than that of the newer node at the same relative path,
+    or, when the newer content has no node there, of the nearest enclosing newer node."""
+    def eff(n, inherited):
+        return n['prio'] if n is not None and n.get('prio') is not None else inherited
+
+    def rec(old, new, nprio):
+        """old: older AST node or None; new: newer AST node at the same path or None; nprio: priority of the nearest
+        existing newer node  ->  (value, has_survivor)"""
+        nprio = eff(new, nprio)
         if old is None:
             return tdoc.plain(new), False
         if old['t'] == 'map' and not _is_call(old):
             if new is not None and new['t'] != 'map':
-                # newer non-mapping here; anything protected below would be "through a non-mapping": not generated
-                if any(n.get('prio', 0) > fprio for _, n in tdoc.walk(old)):
-                    raise _Skip()
+                if any((n.get('prio', 0) or 0) > nprio for _, n in tdoc.walk(old)):
+                    raise _Skip()       # a protected entry below a newer non-mapping: not generated
                 return tdoc.plain(new), False
             out = {}
             surv = False
             newd = {k: v for k, v in new['items']} if new is not None else {}
             for k, v in old['items']:
-                val, s = rec(v, newd.get(k))
+                val, s = rec(v, newd.get(k), nprio)
                 if s:
                     out[k] = val
                     surv = True
@@ -264,12 +277,14 @@ def _expected_b(older_focus_ast, focus):
         # old is a leaf-like entry (scalar, list, call node)
         if old['t'] == 'seq' and new is not None and new['t'] == 'map':
             raise _Skip()       # mapping-onto-list addressing is validated before priorities are looked at (statement silent)
-        if (old.get('prio', 0) or 0) > fprio:
+        if (old.get('prio', 0) or 0) > nprio:
+            if new is not None and new['t'] == 'map' and any(n.get('prio') is not None for _, n in tdoc.walk(new)):
+                raise _Skip()
             return ev(old), True
         if new is None:
             return None, False
         return tdoc.plain(new), False
-    return rec(older_focus_ast, focus)
+    return rec(older_focus_ast, focus, 0)
 
 
 # ---------------------------------------------------------------------------------------------- property body
